@@ -1540,6 +1540,12 @@ class Cell(Bucket):
                 app.server = None
                 app.evicted = True
                 app.release_identity()
+            elif (app.server and app.allocation is not None and
+                  app.allocation.label not in servers[app.server].labels):
+                # App was assigned to allocation in different partition,
+                # placement is no longer valid.
+                servers[app.server].remove(app.name)
+                app.release_identity()
 
     def _record_rank_and_util(self, queue):
         """Set final rank and utilization for all apps in the queue.
